@@ -161,7 +161,7 @@ Proof.
       unfold sk_bit. rewrite Hw, Htl, xorb_false_l. destruct (c <? 64); reflexivity.
     + (* windowed *)
       assert (Hw : windowed s = true) by (unfold windowed; rewrite Ew; reflexivity).
-      destruct (wf_win s W Hw) as [Hlen Hbytes]. rewrite Ew in Hlen, Hbytes.
+      destruct (wf_win s W Hw) as [Hlen Hbytes]. rewrite Ew in Hlen, Hbytes. unfold Knat in Hlen.
       pose proof (wf_zone s W Hw) as HZ. rewrite Htl in HZ.
       split; [rewrite fold_xor_length, map_length; exact Hlen|].
       intros r c Hr.
@@ -177,7 +177,7 @@ Proof.
            ++ assert (memN (r * 64 + c) t = false) as ->.
               { apply memN_false. intros Hin. apply HZ in Hin. rewrite rc_mod in Hin by lia. lia. }
               apply xorb_false_r.
-           ++ rewrite byte_bits_high by (try exact Hb; lia). reflexivity.
+           ++ rewrite byte_bits_high by (try exact Hb; lia). apply xorb_false_l.
       * assert (c <? c_off s = false) as -> by lia. cbn [orb].
         apply byte_bits_high; [exact Hb|lia].
 Qed.
